@@ -10,6 +10,7 @@ from vlib.core import Outcome, Sub, HarnessError, is_known
 
 from boltons import urlutils
 from boltons.urlutils import URL, URLParseError, find_all_links
+from boltons.dictutils import OrderedMultiDict
 
 LEVEL = 'exploration'
 RULE = ('(a) component injection: username, password, 1-4 path segments, 0-4 query pairs and fragment drawn from text biased to every RFC 3986 '
@@ -85,7 +86,7 @@ def strat_a(tier):
         'segments': st.lists(_comp, min_size=1, max_size=4),
         'query': st.lists(st.tuples(_comp, st.one_of(st.none(), _comp)).map(list), max_size=4),
         'fragment': _comp,
-        'build': st.sampled_from(['from_parts', 'assign']),
+        'build': st.sampled_from(['from_parts', 'assign', 'from_parts', 'assign', 'from_parts_omd', 'from_parts_qpd']),
     })
 
 
@@ -129,8 +130,17 @@ def run_a(case):
     desc = 'scheme=%r host=%r port=%r username=%r password=%r segments=%r query=%r fragment=%r via %s' % (
         scheme, host, port, username, password, segments, query, fragment, build)
     try:
-        if build == 'from_parts':
-            u = URL.from_parts(scheme=scheme, host=host, path_parts=[''] + segments, query_params=list(query),
+        if build in ('from_parts', 'from_parts_omd', 'from_parts_qpd'):
+            # query_params in any documented form: a list of pairs, an OrderedMultiDict, the query_params of another URL
+            qarg = list(query)
+            if build == 'from_parts_omd':
+                qarg = OrderedMultiDict(query)
+            elif build == 'from_parts_qpd':
+                donor = URL('http://donor.example/')
+                for k, v in query:
+                    donor.query_params.add(k, v)
+                qarg = donor.query_params
+            u = URL.from_parts(scheme=scheme, host=host, path_parts=[''] + segments, query_params=qarg,
                                fragment=fragment, port=port, username=username, password=password)
         else:
             base = '%s://%s' % (scheme, '[%s]' % host if hkind == 'ipv6' else host)
